@@ -1,4 +1,7 @@
 import GopModel.Driver.Loop
 import GopModel.Driver.Rearrange
+import GopModel.Driver.Frame
 open GopModel.Driver
-def main : IO Unit := runDriver (dispatchWith [("c24", handleC24), ("c24x", handleC24x)])
+def main : IO Unit := runDriver (dispatchWith [
+  ("c24", handleC24), ("c24x", handleC24x),
+  ("c38r", handleC38r), ("c38w", handleC38w), ("c38id", handleC38id), ("c38ln", handleC38ln)])
